@@ -82,9 +82,9 @@ def build(feat="ref"):
 TLC_CP = "/opt/veriftools/tla/tla2tools.jar:/opt/veriftools/tla/CommunityModules-deps.jar"
 
 
-def run_harness(binp, prog_file, ev_file, timeout=1800):
+def run_harness(binp, prog_file, ev_file, timeout=3000, mode="run"):
     t0 = time.time()
-    p = subprocess.run([binp, "run", prog_file, ev_file], stdout=subprocess.PIPE, stderr=subprocess.PIPE, text=True, timeout=timeout)
+    p = subprocess.run([binp, mode, prog_file, ev_file], stdout=subprocess.PIPE, stderr=subprocess.PIPE, text=True, timeout=timeout)
     if p.returncode != 0:
         raise ToolError("harness failed on %s: rc=%s %s" % (prog_file, p.returncode, p.stderr[-2000:]))
     try:
@@ -165,7 +165,7 @@ class CampaignResult:
         self.bytes = 0
 
 
-def campaign(name, programs, workdir, feat="ref", spec="TraceFatFs", n_shards=None, jvms=None, keep_events=False):
+def campaign(name, programs, workdir, feat="ref", spec="TraceFatFs", n_shards=None, jvms=None, keep_events=False, mode="run"):
     """run programs through the harness and validate the traces with TLC"""
     os.makedirs(workdir, exist_ok=True)
     binp = build(feat)
@@ -189,7 +189,7 @@ def campaign(name, programs, workdir, feat="ref", spec="TraceFatFs", n_shards=No
         files.append((k, pf, ef))
     t0 = time.time()
     with ThreadPoolExecutor(max_workers=min(len(files), max(1, NCPU - 2))) as ex:
-        infos = list(ex.map(lambda f: run_harness(binp, f[1], f[2]), files))
+        infos = list(ex.map(lambda f: run_harness(binp, f[1], f[2], mode=mode), files))
     res.wall_harness = time.time() - t0
     res.events = sum(i["events"] for i in infos)
     # shapes and samples, measured from the recorded events
@@ -198,15 +198,16 @@ def campaign(name, programs, workdir, feat="ref", spec="TraceFatFs", n_shards=No
         with open(ef) as f:
             for n, ln in enumerate(f):
                 # cheap field extraction without parsing the whole line
-                m = re.search(r'"op":"([a-z_]+)"', ln)
+                m = re.search(r'"name":"([a-z_]+)"', ln) if mode == "faults" else re.search(r'"op":"([a-z_]+)"', ln)
                 r = re.search(r'"r":\{[^}]*?"k":"([a-z]+)"', ln)
                 e = re.search(r'"r":\{[^}]*?"e":"([A-Za-z]+)"', ln)
                 if m:
-                    res.shapes.add((m.group(1), r.group(1) if r else "", e.group(1) if e else ""))
+                    fk = re.search(r'"flt":\{"drop":(true|false),"kind":"([a-z]+)"', ln) if mode == "faults" else None
+                    res.shapes.add((m.group(1), r.group(1) if r else "", e.group(1) if e else "") + ((fk.group(1), fk.group(2)) if fk else ()))
                 if k == 0 and n < 40 and len(res.samples) < 3 and m and m.group(1) not in ("begin", "mount", "end"):
                     try:
                         ev = json.loads(ln)
-                        res.samples.append({"pid": ev.get("pid"), "i": ev.get("i"), "op": ev.get("op"), "a": ev.get("a"), "r": _trim(ev.get("r"))})
+                        res.samples.append({k2: _trim(v2) for k2, v2 in ev.items() if k2 in ("pid", "i", "op", "a", "r", "name", "k", "of", "flt", "t", "req", "res")})
                     except Exception:
                         pass
     fold = "ascii" if feat == "nounicode" else "unicode"
